@@ -59,6 +59,54 @@ VH_AREA(fsim) {
     for (uint64_t k = 0; k < a.n; k++) {
         Rng rng = master.sub(k);
         if (!a.want(k)) continue;
+        if (a.replay.empty() && k % 16 == 5) {
+            // wide deterministic circuits: single instructions recording hundreds of results (several 256-row blocks per flush),
+            // streamed vs in-memory, every format, with and without a reference sample; the expected record is known in closed form
+            size_t nq = rng.pick(std::vector<size_t>{255, 256, 257, 511, 512, 513, 800, 1100});
+            std::vector<bool> expect(nq, false);
+            Circuit c;
+            std::vector<uint32_t> xs, es, all;
+            for (size_t q = 0; q < nq; q++) {
+                all.push_back((uint32_t)q);
+                if (rng.chance(0.05)) { xs.push_back((uint32_t)q); expect[q] = !expect[q]; }
+                if (rng.chance(0.05)) { es.push_back((uint32_t)q); expect[q] = !expect[q]; }
+            }
+            if (!xs.empty()) c.safe_append_u("X", xs);
+            if (!es.empty()) c.safe_append_u("X_ERROR", es, {1.0});
+            const char *mg = rng.pick(std::vector<const char *>{"M", "MR", "MZ"});
+            std::vector<uint32_t> mt = all;
+            for (auto &t : mt) if (rng.chance(0.02)) { t |= TARGET_INVERTED_BIT; expect[t & TARGET_VALUE_MASK] = !expect[t & TARGET_VALUE_MASK]; }
+            c.safe_append_u(mg, mt);
+            if (rng.chance(0.5)) {
+                // a second wide instruction: after MR everything reads 0, after M the same values again
+                bool was_reset = std::string(mg) == "MR";
+                c.safe_append_u("M", all);
+                for (size_t q = 0; q < nq; q++) expect.push_back(was_reset ? false : (expect[q] ^ (bool)(mt[q] & TARGET_INVERTED_BIT)));
+            }
+            out_case(k, "wide deterministic circuit, " + std::to_string(nq) + " qubits: " + esc_line(c.str()).substr(0, 200));
+            try {
+                std::string want;
+                for (bool b : expect) want.push_back(b ? '1' : '0');
+                want.push_back('\n');
+                for (size_t nshots : {(size_t)1, (size_t)5, (size_t)64}) {
+                    for (int f = 0; f < 6; f++) {
+                        if (f == 5 && nshots % 64 != 0) continue;
+                        std::string b1 = sample_bytes(c, nshots, FMTS[f], false, 5), b2 = sample_bytes(c, nshots, FMTS[f], true, 9);
+                        if (b1 != b2) out_x(std::string("streamed output differs from in-memory output on a wide circuit: format ") + FN[f] + " shots " + std::to_string(nshots));
+                        if (f == 0) {
+                            std::string all_want;
+                            for (size_t s2 = 0; s2 < nshots; s2++) all_want += want;
+                            if (b1 != all_want) out_x("in-memory 01 output of a deterministic wide circuit is not the known record");
+                            if (b2 != all_want) out_x("streamed 01 output of a deterministic wide circuit is not the known record");
+                        }
+                    }
+                }
+                st.hit("cases.wide_deterministic");
+            } catch (const std::exception &e) {
+                out_x(std::string("unexpected exception: ") + e.what());
+            }
+            continue;
+        }
         GenOpts o;
         o.max_qubits = 5;
         o.max_ops = a.thorough() ? 40 : 20;
@@ -144,6 +192,64 @@ VH_AREA(fsim) {
                 }
                 out_q("fsim m2d " + wire_circuit(comp) + " " + (skip_ref ? "1" : "0") + " " + ref_txt + " " + std::to_string(n3) + txt, "ok");
                 st.hit(skip_ref ? "m2d.skip_reference" : "m2d.with_reference");
+            }
+            // streamed m2d over several 1024-shot batches must equal the in-memory conversion (which the oracle judges above)
+            if (k % 8 == 2 && stats.num_detectors + stats.num_observables > 0 && stats.num_measurements > 0) {
+                size_t n4 = 2100;
+                std::mt19937_64 r4(rng.next());
+                auto ref = TableauSimulator<MAX_BITWORD_WIDTH>::reference_sample_circuit(big);
+                auto sampled = sample_batch_measurements<MAX_BITWORD_WIDTH>(big, ref, n4, r4, false);
+                simd_bit_table<MAX_BITWORD_WIDTH> sw(stats.num_sweep_bits, n4);
+                auto mem = measurements_to_detection_events<MAX_BITWORD_WIDTH>(sampled, sw, big, true, false);
+                FILE *fin = tmpfile();
+                simd_bits<MAX_BITWORD_WIDTH> noref(stats.num_measurements);
+                write_table_data<MAX_BITWORD_WIDTH>(fin, n4, stats.num_measurements, noref, sampled, SampleFormat::SAMPLE_FORMAT_B8, 'M', 'M', 0);
+                rewind(fin);
+                for (int mode = 0; mode < 2; mode++) {
+                    rewind(fin);
+                    FILE *fout = tmpfile(), *fobs = mode ? tmpfile() : nullptr;
+                    stream_measurements_to_detection_events<MAX_BITWORD_WIDTH>(
+                        fin, SampleFormat::SAMPLE_FORMAT_B8, nullptr, SampleFormat::SAMPLE_FORMAT_01, fout, SampleFormat::SAMPLE_FORMAT_01, big, mode == 0, false, fobs,
+                        SampleFormat::SAMPLE_FORMAT_01);
+                    rewind(fout);
+                    size_t ndet = stats.num_detectors, nobs = stats.num_observables;
+                    size_t width = mode == 0 ? ndet + nobs : ndet;
+                    std::string line(width + 2, ' ');
+                    bool bad = false;
+                    for (size_t s = 0; s < n4 && !bad; s++) {
+                        for (size_t q = 0; q < width; q++) {
+                            int ch = getc(fout);
+                            if (ch != (mem[q][s] ? '1' : '0')) { bad = true; out_x("streamed m2d differs from in-memory m2d at shot " + std::to_string(s) + " bit " + std::to_string(q) + (mode ? " (obs_out mode)" : " (append mode)")); break; }
+                        }
+                        if (!bad && getc(fout) != '\n') { bad = true; out_x("streamed m2d output malformed"); }
+                    }
+                    if (fobs && !bad) {
+                        rewind(fobs);
+                        for (size_t s = 0; s < n4 && !bad; s++) {
+                            for (size_t q = 0; q < nobs; q++) {
+                                int ch = getc(fobs);
+                                if (ch != (mem[ndet + q][s] ? '1' : '0')) { bad = true; out_x("streamed m2d --obs_out differs from in-memory m2d at shot " + std::to_string(s) + " observable " + std::to_string(q)); break; }
+                            }
+                            if (!bad) getc(fobs);
+                        }
+                    }
+                    fclose(fout);
+                    if (fobs) fclose(fobs);
+                }
+                fclose(fin);
+                st.hit("m2d.streamed_multi_batch");
+                // the tail of the in-memory result (shots beyond 1024) is also sent to the oracle
+                std::string txt;
+                std::string ref_txt2;
+                for (size_t q = 0; q < stats.num_measurements; q++) ref_txt2.push_back(ref[q] ? '1' : '0');
+                size_t no_ = stats.num_detectors + stats.num_observables;
+                for (size_t s = n4 - 40; s < n4; s++) {
+                    std::string m, o2;
+                    for (size_t q = 0; q < stats.num_measurements; q++) m.push_back(sampled[q][s] ? '1' : '0');
+                    for (size_t q = 0; q < no_; q++) o2.push_back(mem[q][s] ? '1' : '0');
+                    txt += " " + m + " - " + (o2.empty() ? std::string("-") : o2);
+                }
+                out_q("fsim m2d " + wire_circuit(comp) + " 0 " + ref_txt2 + " 40" + txt, "ok");
             }
             // deterministic circuits: every path, batch size and format writes identical bytes
             if (deterministic_case && stats.num_measurements > 0) {
